@@ -7,7 +7,7 @@
    DESIGN 4.4 "away from internal junctions". *)
 From Coq Require Import List ZArith QArith Qabs Bool Lia Lqa.
 Require Import QV.C08.Model QV.C08.Spec QV.C08.Wf QV.C08.ProofsVec QV.C08.ProofsConst QV.C08.ProofsProper
-               QV.C08.ProofsCtor QV.C08.ProofsFlat QV.C08.ProofsDen.
+               QV.C08.ProofsCtor QV.C08.ProofsFlat QV.C08.ProofsDen QV.C08.Guards.
 Import ListNotations.
 Open Scope Q_scope.
 
@@ -210,29 +210,7 @@ Proof.
 Qed.
 
 (* ---- the guard ---- *)
-Fixpoint bad_list (rv : bool) (tau : Q) (ds : list (Q * (Q -> bool))) (time : Q) : bool :=
-  match ds with
-  | [] => false
-  | (d, g) :: r =>
-      let e := time + d in
-      (rv && (Qeq_bool tau time || Qeq_bool tau e))
-      || (negb (Qltb tau time) && Qltb tau e && g (tau - time))
-      || bad_list rv tau r e
-  end.
-(* [rv] = an odd number of reversals above; [tau] = the time at which the code evaluates w *)
-Fixpoint bad (rv : bool) (w : wf) (c : chan) (tau : Q) {struct w} : bool :=
-  match w with
-  | WTable _ _ | WConst _ _ _ | WFunc _ _ _ => false
-  | WSeq l => bad_list rv tau (map (fun s => (duration s, bad rv s c)) l) 0
-  | WMulti l => (fix find (l : list wf) := match l with
-                   | [] => false
-                   | s :: r => if inb c (channels s) then bad rv s c tau else find r end) l
-  | WRep b n => bad_list rv tau (repeat (duration b, bad rv b c) (Z.to_nat n)) 0
-  | WTrans i _ | WSubset i _ | WFunctor i _ => bad rv i c tau
-  | WArith l _ r => (inb c (channels l) && bad rv l c tau) || (inb c (channels r) && bad rv r c tau)
-  | WRev i => bad (negb rv) i c (duration i - tau)
-  end.
-
+(* [bad_list], [bad]: moved to Guards.v (round 5) so that Corr.v can use the same guard *)
 Lemma bad_list_At rv tau (g : wf -> Q -> bool) l : forall time x u,
   bad_list rv tau (map (fun s => (duration s, g s)) l) time = false -> At l time tau x u ->
   g x u = false /\ (rv = true -> 0 < u).
